@@ -171,6 +171,8 @@ def endpoint : String → Option Ep
   | "raw" => some { method := "PUT", route := [.lit (b "raw")], kind := "raw" }
   | "stream" => some { method := "PUT", route := [.lit (b "stream")], kind := "stream" }
   | "rawreq" => some { method := "POST", route := [.lit (b "rawreq")], kind := "rawreq" }
+  | "bigraw" => some { method := "PUT", route := [.lit (b "bigraw")], kind := "bigraw" }
+  | "bigstream" => some { method := "PUT", route := [.lit (b "bigstream")], kind := "bigstream" }
   | "mp" => some { method := "POST", route := [.lit (b "multipart")], kind := "mp" }
   | "all" =>
     some { method := "POST", route := [.lit (b "all"), .var (b "nonce")], pathShape := some 17, queryShape := some 18, body := some (19, .json) }
@@ -183,6 +185,8 @@ def endpoint : String → Option Ep
   | _ => none
 
 def bodyCap : Nat := 4096
+/-- `request_body_max_bytes` of the `big*` endpoints. -/
+def bigBodyCap : Nat := 262144
 
 /-- `http::Uri` refuses a request target longer than this; hyper answers 414
 itself (no framework error body). -/
@@ -371,6 +375,13 @@ def verdict (l : SvLine) (e : Ep) (payload : Bytes) (strict : Bool) : Verdict :=
           -- the limit is enforced inside the handler's stream; same status
           if payload.length > bodyCap then .refused 400 else .called ("s" ++ hexB payload)
         | none, "rawreq" => .called ("s" ++ hexB payload)
+        -- the same extractors under the endpoint's own, larger limit
+        | none, "bigraw" =>
+          match extractUntypedE bigBodyCap payload with
+          | .ok p => .called ("s" ++ hexB p)
+          | .error _ => .refused 400
+        | none, "bigstream" =>
+          if payload.length > bigBodyCap then .refused 400 else .called ("s" ++ hexB payload)
         | none, "mp" =>
           match multipartBoundary hdr with
           | .error _ => .refused 400
